@@ -19,10 +19,12 @@ import (
 	"errors"
 	"fmt"
 	"io"
+	"log"
 	"net"
 	"net/http"
 	"os"
 	"os/signal"
+	"path/filepath"
 	"regexp"
 	"runtime"
 	"sort"
@@ -55,6 +57,14 @@ const (
 	lOK   = 0
 	lBusy = 1 // the port is held by another server
 	lBad  = 2 // the host is not an address of this machine
+	lCert = 3 // StartTLS only: the key pair cannot be loaded
+)
+
+// entry points
+const (
+	pHTTP = 0 // Start
+	pTLS  = 1 // StartTLS
+	pMTLS = 2 // StartMTLS
 )
 
 type Rel struct {
@@ -70,6 +80,7 @@ type Round struct {
 }
 
 type Scenario struct {
+	Proto   int `json:",omitempty"`
 	Metrics bool
 	Tracing bool
 	Listen  int
@@ -110,7 +121,7 @@ func (sc *Scenario) needsSerial() bool {
 }
 
 func (sc *Scenario) tokens(l *hx.Line) {
-	l.Bool(sc.Metrics).Bool(sc.Tracing).Nat(sc.Listen)
+	l.Tok("P").Nat(sc.Proto).Bool(sc.Metrics).Bool(sc.Tracing).Nat(sc.Listen)
 	ints := func(xs []int) {
 		l.Nat(len(xs))
 		for _, x := range xs {
@@ -257,7 +268,8 @@ type runner struct {
 
 	discard string
 	notes   []string
-	client  *http.Client
+	client  *http.Client // talks to the application (TLS as the entry point requires)
+	plain   *http.Client // talks to the metrics server
 }
 
 func (r *runner) ev(s string) {
@@ -362,9 +374,25 @@ func b2s(b bool) string {
 	return "0"
 }
 
+func (r *runner) appURL(path string) string {
+	scheme := "http"
+	if r.sc.Proto != pHTTP {
+		scheme = "https"
+	}
+	return fmt.Sprintf("%s://127.0.0.1:%d%s", scheme, r.appPort, path)
+}
+
+func (r *runner) newTransport() *http.Transport {
+	t := &http.Transport{DisableKeepAlives: true}
+	if r.sc.Proto != pHTTP {
+		t.TLSClientConfig = clientTLS()
+	}
+	return t
+}
+
 // probeApp: does *this* application serve HTTP on its port right now?
 func (r *runner) probeApp() bool {
-	req, _ := http.NewRequest("GET", fmt.Sprintf("http://127.0.0.1:%d/__probe", r.appPort), nil)
+	req, _ := http.NewRequest("GET", r.appURL("/__probe"), nil)
 	req.Close = true
 	resp, err := r.client.Do(req)
 	if err != nil {
@@ -383,7 +411,7 @@ func (r *runner) probeMetrics() bool {
 	}
 	req, _ := http.NewRequest("GET", fmt.Sprintf("http://127.0.0.1:%d/metrics", r.metPort), nil)
 	req.Close = true
-	resp, err := r.client.Do(req)
+	resp, err := r.plain.Do(req)
 	if err != nil {
 		return false
 	}
@@ -645,6 +673,30 @@ func (r *runner) callReload(round int) (res int) {
 	return 0
 }
 
+// start calls the entry point of the scenario.
+func (r *runner) start() error {
+	switch r.sc.Proto {
+	case pTLS:
+		p, err := pki()
+		if err != nil {
+			r.discard = "pki: " + err.Error()
+			return err
+		}
+		if r.sc.Listen == lCert {
+			return r.a.StartTLS(r.ctx, filepath.Join(p.dir, "missing.crt"), p.keyFile)
+		}
+		return r.a.StartTLS(r.ctx, p.certFile, p.keyFile)
+	case pMTLS:
+		p, err := pki()
+		if err != nil {
+			r.discard = "pki: " + err.Error()
+			return err
+		}
+		return r.a.StartMTLS(r.ctx, p.serverCert, app.WithClientCAs(p.pool))
+	}
+	return r.a.Start(r.ctx)
+}
+
 func classify(err error) int {
 	if err == nil {
 		return 0
@@ -832,7 +884,8 @@ type obsT struct {
 
 func (r *runner) run() obsT {
 	sc := r.sc
-	r.client = &http.Client{Transport: &http.Transport{DisableKeepAlives: true}, Timeout: 5 * time.Second}
+	r.client = &http.Client{Transport: r.newTransport(), Timeout: 5 * time.Second}
+	r.plain = &http.Client{Transport: &http.Transport{DisableKeepAlives: true}, Timeout: 5 * time.Second}
 	r.startDone = make(chan struct{})
 	r.readyAll = make(chan struct{})
 	r.hupRound.Store(-1)
@@ -899,7 +952,7 @@ func (r *runner) run() obsT {
 			}
 			close(r.startDone)
 		}()
-		err := r.a.Start(r.ctx)
+		err := r.start()
 		r.res = classify(err)
 		if err != nil {
 			r.errText = err.Error()
@@ -1045,9 +1098,9 @@ func (r *runner) controller() {
 		q := r.reqs[k]
 		go func() {
 			defer close(q.done)
-			req, _ := http.NewRequest("GET", fmt.Sprintf("http://127.0.0.1:%d/r/%d", r.appPort, k), nil)
+			req, _ := http.NewRequest("GET", r.appURL(fmt.Sprintf("/r/%d", k)), nil)
 			req.Close = true
-			cl := &http.Client{Transport: &http.Transport{DisableKeepAlives: true}}
+			cl := &http.Client{Transport: r.newTransport()}
 			resp, err := cl.Do(req)
 			if err != nil {
 				if os.Getenv("VERIF_DEBUG") != "" {
@@ -1146,6 +1199,7 @@ func emit(id string, sc *Scenario, o obsT, st *hx.Stats) string {
 		if sc.Listen != lOK {
 			st.Count("listen_fault")
 		}
+		st.Count([]string{"entry_Start", "entry_StartTLS", "entry_StartMTLS"}[sc.Proto%3])
 		if len(sc.Reqs) > 0 {
 			st.Count("inflight")
 		}
@@ -1245,11 +1299,14 @@ func main() {
 		}
 		os.Stdout = dn
 	}
+	// net/http reports the probes that hang up during a TLS handshake through the standard logger
+	log.SetOutput(io.Discard)
 	// a stray SIGHUP must never kill the harness
 	guard := make(chan os.Signal, 8)
 	signal.Notify(guard, syscall.SIGHUP)
 	w := bufioWriter(realOut)
 	defer w.Flush()
+	defer pkiCleanup()
 
 	type job struct {
 		id string
@@ -1325,6 +1382,7 @@ func main() {
 	if nd := len(jobs) - emitted; len(jobs) >= 20 && nd*4 > len(jobs) {
 		w.Flush()
 		fmt.Fprintf(os.Stderr, "%d of %d cases discarded: timing cannot be forced on this machine/tree\n", nd, len(jobs))
+		pkiCleanup()
 		os.Exit(3)
 	}
 }
